@@ -585,8 +585,11 @@ func C17(tier rt.Tier) int {
 	rep.Set("distinct_nontrivial", int(cases))
 	rep.Set("lookups_judged", int(lookups))
 	rep.Set("repairs_judged", int(repairs))
-	rep.Set("rule", fmt.Sprintf("every content of <= %d of the paths %q (prefix pairs, interior values, prefix-free 4-char paths) x EVERY subset of its reachable non-root nodes removed from the store (all subsets up to 2^9, else all of size <= 3) x trie version equal to / different from the nodes' origin x every order of the donor store's iteration (all permutations up to %d nodes, rotations+reversals above). Oracle: HasMissingNodes <=> some node absent; GetAllMissingNodes, and the keys a full tolerant Iterate reports to its handler and records in GetMissingNodeKeys, == absent nodes whose ancestors are all present; a lookup that crosses an absent node (per the independent canonical trie) returns an error other than 'value not present', all other lookups answer per model; after MergeDB, and after MergeState into a copy of the damaged store: no missing node, full content, same root, every store key == hash of its node, donor node objects unchanged; a repair from donor nodes that went through Encode/CreateNode with a version mark different from their origin; the same repairs from a layered donor store whose own trie has replaced every value since (its upper level marks the needed nodes deleted, its lower level holds them); a MergeDB interrupted by a store write error (every position) returns the error and the same trie keeps reporting exactly what the store still lacks; a Delete on the damaged trie either fails or yields the canonical root of the remaining content; 'states' = contents, 'transitions' = (content, removal subset, version, order) cases", maxKeys, paths, permCap))
+	rep.Set("rule", fmt.Sprintf("every content of <= %d of the paths %q (prefix pairs, interior values, prefix-free 4-char paths) x EVERY subset of its reachable non-root nodes removed from the store (all subsets up to 2^9, else all of size <= 3) x trie version equal to / different from the nodes' origin x every order of the donor store's iteration (all permutations up to %d nodes, rotations+reversals above). Oracle: HasMissingNodes <=> some node absent; GetAllMissingNodes, and the keys a full tolerant Iterate reports to its handler and records in GetMissingNodeKeys, == absent nodes whose ancestors are all present; a lookup that crosses an absent node (per the independent canonical trie) returns an error other than 'value not present', all other lookups answer per model; after MergeDB, and after MergeState into a copy of the damaged store: no missing node, full content, same root, every store key == hash of its node, donor node objects unchanged; a repair from donor nodes that went through Encode/CreateNode with a version mark different from their origin; the same repairs from a layered donor store whose own trie has replaced every value since (its upper level marks the needed nodes deleted, its lower level holds them); a MergeDB interrupted by a store write error (every position) returns the error and the same trie keeps reporting exactly what the store still lacks; a Delete on the damaged trie either fails or yields the canonical root of the remaining content; plus the deepest comb (65 paths of 64 characters, 64 nested branches) with every single node of the deepest path absent in turn; 'states' = contents, 'transitions' = (content, removal subset, version, order) cases", maxKeys, paths, permCap))
 	rep.Sample(map[string]any{"content": []string{"aa", "ab", "0a1b"}, "removed": "second-level branch", "trie_version": 5, "order": []int{0}})
+	if !rt.SubRun && (rt.Replay == nil || rt.Replay.Raw["run"] == "deep-comb") {
+		deepComb(rep)
+	}
 	rep.RunVariant()
 	return rep.End()
 }
@@ -626,4 +629,103 @@ func hexSet(m map[string]bool) string {
 	}
 	sort.Strings(s)
 	return "{" + strings.Join(s, ",") + "}"
+}
+
+// deepComb: the deepest trie 64-character paths allow (65 paths, path i shares exactly i characters with the
+// last one, so the last path runs through 64 nested branches); every single node on that path, and the leaf at
+// its end, removed in turn: detection, the exact missing list, the failing lookup and the repair.
+func deepComb(rep *rt.Report) {
+	target := strings.Repeat("5a", 32)
+	var keys []string
+	for i := 0; i < 64; i++ {
+		b := []byte(target)
+		if b[i] == '5' {
+			b[i] = '3'
+		} else {
+			b[i] = 'c'
+		}
+		keys = append(keys, string(b))
+	}
+	keys = append(keys, target)
+	build := func() (*util.MemoryNodeDB, util.Key) {
+		db := util.NewMemoryNodeDB()
+		t := util.NewMerklePatriciaTrie(db, 1, nil, statecache.NewEmpty())
+		for i, k := range keys {
+			if _, err := t.Insert(util.Path(k), val(fmt.Sprintf("v%d", i))); err != nil {
+				panic(err)
+			}
+		}
+		return db, t.GetRoot()
+	}
+	db0, root := build()
+	// the nodes on the target's path, top down
+	var path []util.Key
+	{
+		t := util.NewMerklePatriciaTrie(db0, 1, root, statecache.NewEmpty())
+		_ = t.Iterate(context.Background(), func(ctx context.Context, p util.Path, key util.Key, node util.Node) error {
+			full := string(p)
+			if ln, ok := node.(*util.LeafNode); ok {
+				full += string(ln.Path)
+			}
+			if strings.HasPrefix(target, string(p)) && (len(full) <= len(target)) && strings.HasPrefix(target, full[:min(len(full), len(target))]) {
+				if _, isLeaf := node.(*util.LeafNode); !isLeaf || full == target {
+					path = append(path, append(util.Key{}, key...))
+				}
+			}
+			return nil
+		}, util.NodeTypeLeafNode|util.NodeTypeFullNode|util.NodeTypeExtensionNode)
+	}
+	rep.Set("deep_comb_path_nodes", len(path))
+	for idx, victim := range path {
+		if idx == 0 {
+			continue // the root itself
+		}
+		rep.Add("states", 1)
+		rep.Add("transitions", 1)
+		rep.Add("traces_validated_against_impl", 1)
+		rep.Add("evaluations", 1)
+		desc := fmt.Sprintf("[deep-comb] 65 paths of 64 characters sharing 0..63 characters with the last one, node %d of %d on the last path's way absent", idx, len(path)-1)
+		fail := func(f string) {
+			rep.Violate(desc+": "+f, map[string]any{"run": "deep-comb", "node": idx})
+		}
+		db, _ := build()
+		nd, err := db.GetNode(victim)
+		if err != nil {
+			fail("harness: victim not in store")
+			return
+		}
+		donor := util.NewMemoryNodeDB()
+		_ = donor.PutNode(victim, nd.CloneNode())
+		_ = db.DeleteNode(victim)
+		t := util.NewMerklePatriciaTrie(db, 1, root, statecache.NewEmpty())
+		if has, err := t.HasMissingNodes(context.Background()); err != nil || !has {
+			fail(fmt.Sprintf("HasMissingNodes = %v, %v", has, err))
+			return
+		}
+		t = util.NewMerklePatriciaTrie(db, 1, root, statecache.NewEmpty())
+		got, err := t.GetAllMissingNodes()
+		if err != nil || len(got) != 1 || !bytes.Equal(got[0], victim) {
+			fail(fmt.Sprintf("GetAllMissingNodes = %x, %v; exactly node %x is absent", got, err, []byte(victim)))
+			return
+		}
+		t = util.NewMerklePatriciaTrie(db, 1, root, statecache.NewEmpty())
+		if v, err := t.GetNodeValueRaw(util.Path(target)); err == nil || err == util.ErrValueNotPresent {
+			fail(fmt.Sprintf("lookup of the last path crosses the absent node but returned %q, %v", v, err))
+			return
+		}
+		t = util.NewMerklePatriciaTrie(db, 1, root, statecache.NewEmpty())
+		if err := t.MergeDB(donor, root, nil); err != nil {
+			fail("MergeDB: " + err.Error())
+			return
+		}
+		t = util.NewMerklePatriciaTrie(db, 1, root, statecache.NewEmpty())
+		if has, err := t.HasMissingNodes(context.Background()); err != nil || has {
+			fail(fmt.Sprintf("after MergeDB: HasMissingNodes = %v, %v", has, err))
+			return
+		}
+		if v, err := t.GetNodeValueRaw(util.Path(target)); err != nil || string(v) != "v64" {
+			fail(fmt.Sprintf("after MergeDB: lookup of the last path = %q, %v", v, err))
+			return
+		}
+	}
 }
